@@ -1806,7 +1806,9 @@ def run(ctx):
                 "one conflict chain x, x_sdn_1_, ... , X of 1600 siblings (thorough 1000/1600/3000). "
                 "History level: a netlist with mixed-case identifiers is written and read (EDIF policy), in 1-3 scopes an element is removed or re-identified and a sibling added whose name "
                 "sanitises to that identifier in another case, then composed (raising = failure) and re-read. "
-                "A case is one input; distinct = distinct canonical JSON; non-trivial = netlist / history level, chain, or >= 2 siblings.")
+                "Transform level: export, then uniquify / flatten / clone-and-add of a shared cell with capitals in its name beside siblings named like the copies in another case, then export again; "
+                "oracle on every scope of the second export and re-read. "
+                "A case is one input; distinct = distinct canonical JSON; non-trivial = netlist / history / transform level, chain, or >= 2 siblings.")
     ctx.assumptions = [
         "names are non-empty printable ASCII (0x20..0x7e); non-ASCII names are probed only by the oracle (no model correspondence)",
         "generated sibling lists have <= 40 elements, plus one conflict chain of 1600 (thorough: 1000/1600/3000) siblings x, x_sdn_1_, ... and X",
